@@ -226,6 +226,35 @@ pub fn check(case: &Case, st: &mut Stats) -> CheckResult {
     );
   }
   st.label("library_checked");
+  // ---- (3b) the file written by --update-all: the same edits, spliced into the same text
+  {
+    let edits: Vec<(usize, usize, Vec<u8>)> = want.iter().map(|(s, e, t)| (*s, e - s, t.clone().into_bytes())).collect();
+    if let Ok(expected) = o_splice(text, &edits) {
+      dir.write("upd/a.js", text.as_bytes());
+      let out = cli::sgv(&["scan", "-U", "upd/a.js"], &dir.path, None);
+      if out.timed_out {
+        return Err(Fail::new("inconclusive:watchdog", "sgv scan -U did not finish"));
+      }
+      if out.panicked() {
+        fail!("C08:update-all-panic", "scan -U panicked: {}
+rule:
+{}", out.stderr_str().chars().take(300).collect::<String>(), case.rule_yaml);
+      }
+      let written = dir.read("upd/a.js").unwrap_or_default();
+      if written != expected.as_bytes() {
+        fail!(
+          "C08:update-all-differs",
+          "scan -U wrote {:?}; the edits of scan --json applied to the text give {:?}
+rule:
+{}",
+          String::from_utf8_lossy(&written),
+          expected,
+          case.rule_yaml
+        );
+      }
+      st.label("update_all_checked");
+    }
+  }
   // ---- (4) LSP quick fixes and fix-all
   let mut lsp = match Lsp::start(&dir.path) {
     Ok(l) => l,
